@@ -242,6 +242,13 @@ def ml_enum_runner(mod, facet, tier, seed, shard, nshards, stats):
     if tier == "quick":
         mixes = mixes[:4] + mixes[-1:]
     cases = []
+    # two mixes need longer / finer plans: a write racing flush_tracebacks (two preemptions, every offset) and a
+    # thread whose validate() raised before its next write (the interesting window is late in its run)
+    for k in range(0, 60):
+        for j in range(1, 24):
+            cases.append({"plan": [[k, 0], [j, 1], [10**6, 0]], "threads": [[["tb", 0]], [["flush", 0]]]})
+    for k in range(0, 200 if tier == "thorough" else 140):
+        cases.append({"plan": [[k, 0], [10**6, 1]], "threads": [[["write_invalid", 0, 1], ["validate"], ["write", 1, 2]], [["write", 2, 3]]]})
     for mix in mixes:
         n = len(mix)
         depth = 45 if tier == "thorough" else 30
